@@ -44,10 +44,24 @@ func newKeyCase(t *rapid.T, ps pset, seed []byte) *keyCase {
 	return k
 }
 
+// noPanic runs a Tink call and turns a panic into a value, so that the failure message can carry the
+// complete case.
+func noPanic(f func() error) (err error, panicked any) {
+	defer func() {
+		if r := recover(); r != nil {
+			panicked = r
+		}
+	}()
+	return f(), nil
+}
+
 // verifyBoth is the equivalence oracle: Tink's Verify decision must be the reference's.
 func (k *keyCase) verifyBoth(t *rapid.T, kind string, msg, ctx, sig []byte) bool {
 	want := mldsaref.Verify(k.ps.ref, k.pkRef, msg, ctx, sig)
-	err := k.pk.Verify(msg, sig, ctx)
+	err, pan := noPanic(func() error { return k.pk.Verify(msg, sig, ctx) })
+	if pan != nil {
+		t.Fatalf("%v: candidate kind=%s: Verify PANICS: %v (reference Verify=%v)\nmsg = %x\nctx = %x\nsig = %x", k, kind, pan, want, msg, ctx, sig)
+	}
 	if (err == nil) != want {
 		t.Fatalf("%v: candidate kind=%s: Verify err=%v, reference Verify=%v\nmsg = %x\nctx = %x\nsig = %x", k, kind, err, want, msg, ctx, sig)
 	}
@@ -57,7 +71,10 @@ func (k *keyCase) verifyBoth(t *rapid.T, kind string, msg, ctx, sig []byte) bool
 // verifyBothMu is the same oracle on the external-mu entry points.
 func (k *keyCase) verifyBothMu(t *rapid.T, kind string, mu [64]byte, sig []byte) bool {
 	want := mldsaref.VerifyMu(k.ps.ref, k.pkRef, mu, sig)
-	err := k.pk.VerifyWithMu(mu, sig)
+	err, pan := noPanic(func() error { return k.pk.VerifyWithMu(mu, sig) })
+	if pan != nil {
+		t.Fatalf("%v: candidate kind=%s: VerifyWithMu PANICS: %v (reference VerifyMu=%v)\nmu  = %x\nsig = %x", k, kind, pan, want, mu, sig)
+	}
 	if (err == nil) != want {
 		t.Fatalf("%v: candidate kind=%s: VerifyWithMu err=%v, reference VerifyMu=%v\nmu  = %x\nsig = %x", k, kind, err, want, mu, sig)
 	}
@@ -143,10 +160,50 @@ func hintVariants(t *rapid.T, p *mldsaref.Params, sig []byte) (out [][]byte, kin
 		}
 		out, kinds = append(out, with(mldsaref.HintBitPack(p, h3))), append(kinds, "hint-filled-to-omega(well-formed)")
 	}
-	for i := 0; i < 2; i++ {
-		y2, kind := mutateHintEncoding(t, p, y)
-		out, kinds = append(out, with(y2)), append(kinds, "hint-"+kind)
+	// malformed encodings that a lenient decoder would map to the SAME hint vector (so that the
+	// signature would still verify): unsorted indices, a repeated index, non-zero padding
+	om := p.Omega
+	total := int(y[om+p.K-1])
+	prev := 0
+	var multi, nonEmpty []int // polynomials with >= 2 / >= 1 indices
+	starts := make([]int, p.K)
+	for i := 0; i < p.K; i++ {
+		end := int(y[om+i])
+		starts[i] = prev
+		if end-prev >= 2 {
+			multi = append(multi, i)
+		}
+		if end-prev >= 1 {
+			nonEmpty = append(nonEmpty, i)
+		}
+		prev = end
 	}
+	if len(multi) > 0 {
+		i := multi[rapid.IntRange(0, len(multi)-1).Draw(t, "hint_swap_poly")]
+		j := rapid.IntRange(starts[i], int(y[om+i])-2).Draw(t, "hint_swap_at")
+		y2 := append([]byte{}, y...)
+		y2[j], y2[j+1] = y2[j+1], y2[j]
+		out, kinds = append(out, with(y2)), append(kinds, "hint-unsorted(same hint vector)")
+	}
+	if len(nonEmpty) > 0 && total < om {
+		i := nonEmpty[rapid.IntRange(0, len(nonEmpty)-1).Draw(t, "hint_dup_poly")]
+		j := rapid.IntRange(starts[i], int(y[om+i])-1).Draw(t, "hint_dup_at")
+		y2 := append([]byte{}, y[:j+1]...)
+		y2 = append(y2, y[j])           // the repeated index
+		y2 = append(y2, y[j+1:om-1]...) // the rest moves up by one (the last padding byte drops out)
+		y2 = append(y2, y[om:]...)
+		for c := i; c < p.K; c++ {
+			y2[om+c]++
+		}
+		out, kinds = append(out, with(y2)), append(kinds, "hint-repeated-index(same hint vector)")
+	}
+	if total < om {
+		y2 := append([]byte{}, y...)
+		y2[rapid.IntRange(total, om-1).Draw(t, "hint_pad_at")] = byte(rapid.IntRange(1, 255).Draw(t, "hint_pad_val"))
+		out, kinds = append(out, with(y2)), append(kinds, "hint-nonzero-padding(same hint vector)")
+	}
+	y2, kind := mutateHintEncoding(t, p, y)
+	out, kinds = append(out, with(y2)), append(kinds, "hint-"+kind)
 	return out, kinds
 }
 
